@@ -15,6 +15,7 @@ parameters); one client reader per attempt.
 | clause of the statement | theorem(s) for the model | tie to the code |
 |---|---|---|
 | uploading through a helper produces the **same read-cap and verify-cap** as uploading directly with the same convergence secret and parameters | `helper_cap_eq_direct_cap` (for every encoder that is a function of ciphertext and parameters, every interruption pattern); rests on `resumed_fetch_eq_ciphertext` (helper side) and `client_reader_returns_ciphertext` (client side) | real Helper + AssistedUploader vs direct upload on a twin grid: caps compared (corpus + random) |
+| … for **every size**, LIT-sized files included (≤ 55 bytes: LIT cap on both paths, nothing pushed, helper not asked) | `upload_with_helper_eq_upload_without`, `literal_sizes_bypass_helper`, `lit_threshold_is_55` (+ `helper_first_counterexample`: seeded C44-d) | twin grids at sizes 0, 1, 54, 55, 56, 57 and segment boundaries (`pick` driver line; caps, helper / server contact) |
 | key / storage index are the same on both paths (same convergence secret) | not a theorem here: both are derived by the same client code before the paths diverge (C17 is about the derivation) | caps compared |
 | an **interrupted** helper upload that is **resumed** produces the **same shares** as an uninterrupted one | `resumed_fetch_eq_ciphertext` (every list of disturbed attempts, any chunk size > 0), `incoming_file_is_prefix` (the partial file is always a prefix of the ciphertext), `client_reader_returns_ciphertext` (the resumed client reader returns the right bytes although it skips ahead in several pieces), hence the shares component of `helper_cap_eq_direct_cap` | file sizes after every attempt + ciphertext handed to the encoder vs driver (`fetch`), client reader vs driver (`reader`), share bytes vs direct upload, plaintext downloaded |
 | encoding itself is a function of (ciphertext, parameters) | assumed here (hypothesis: any `encode`); C01 / C36 are about the real one | share bytes compared |
@@ -132,6 +133,59 @@ def toyEncode (ct : List UInt8) (p : Params) : Encoded :=
 
 example : helperUpload toyEncode 2 7 11 [5, 6, 7, 8, 9] ⟨1, 2, 4⟩ [.read 1, .encode, .none]
     = some (directUpload toyEncode 7 11 [5, 6, 7, 8, 9] ⟨1, 2, 4⟩) := by decide
+
+/-- `URI_LIT_SIZE_THRESHOLD` as extracted from the source: 55, the largest size that fits a LIT cap -/
+theorem lit_threshold_is_55 : Tahoe.Generated.Immutable.URI_LIT_SIZE_THRESHOLD = 55 := rfl
+
+/-- **`upload_with_helper_eq_upload_without`** (`helper_cap_eq_direct_cap` over ALL sizes, literals included):
+for every plaintext of every size, every encoder, parameters, chunk size > 0 and interruption pattern ending in
+an undisturbed attempt, the client with a helper returns the same cap and the grid receives the same shares as
+the client without one. -/
+theorem upload_with_helper_eq_upload_without (encode : List UInt8 → Params → Encoded) (chunk : Nat) (hc : 0 < chunk)
+    (key si : Nat) (pt ct : List UInt8) (p : Params) (faults : List Fault) :
+    clientUpload encode true chunk key si pt ct p (faults ++ [.none]) =
+    clientUpload encode false chunk key si pt ct p [] := by
+  unfold clientUpload pickUploader
+  by_cases h : pt.length ≤ Tahoe.Generated.Immutable.URI_LIT_SIZE_THRESHOLD
+  · simp [h]
+  · simp [h, helper_cap_eq_direct_cap encode chunk hc key si ct p faults]
+
+/-- up to 55 bytes both paths return the LIT cap of the data and push nothing; the helper is not even asked -/
+theorem literal_sizes_bypass_helper (encode : List UInt8 → Params → Encoded) (hasHelper : Bool) (chunk key si : Nat)
+    (pt ct : List UInt8) (p : Params) (faults : List Fault) (h : pt.length ≤ 55) :
+    pickUploader hasHelper pt.length = .literal ∧
+    clientUpload encode hasHelper chunk key si pt ct p faults = some ([], .lit pt) := by
+  have hp : pickUploader hasHelper pt.length = .literal := by
+    simp [pickUploader, Tahoe.Generated.Immutable.URI_LIT_SIZE_THRESHOLD, h]
+  exact ⟨hp, by simp [clientUpload, hp]⟩
+
+example : pickUploader true 55 = .literal ∧ pickUploader true 56 = .assisted ∧ pickUploader false 56 = .direct ∧
+    pickUploader true 0 = .literal := by decide
+
+example : clientUpload toyEncode true 2 7 11 [1, 2, 3] [9, 9, 9] ⟨1, 2, 4⟩ [.read 0, .none] = some ([], .lit [1, 2, 3]) := by
+  decide
+
+example : clientUpload toyEncode true 2 7 11 (List.replicate 56 1) (List.replicate 56 2) ⟨1, 2, 4⟩ ([.read 3] ++ [.none]) =
+    clientUpload toyEncode false 2 7 11 (List.replicate 56 1) (List.replicate 56 2) ⟨1, 2, 4⟩ [] :=
+  upload_with_helper_eq_upload_without toyEncode 2 (by decide) 7 11 _ _ ⟨1, 2, 4⟩ [.read 3]
+
+/-- NOT model code: the choice of the seeded change C44-d — helper first, with `size >= threshold` -/
+def pickHelperFirst (hasHelper : Bool) (size : Nat) : Picked :=
+  if hasHelper && decide (Tahoe.Generated.Immutable.URI_LIT_SIZE_THRESHOLD ≤ size) then .assisted
+  else if size ≤ Tahoe.Generated.Immutable.URI_LIT_SIZE_THRESHOLD then .literal else .direct
+
+/-- the two comparisons overlap at exactly 55 bytes: with a helper a CHK upload, without one a LIT cap -/
+theorem helper_first_counterexample :
+    pickHelperFirst true 55 = .assisted ∧ pickHelperFirst false 55 = .literal ∧
+    (∀ n, n ≠ 55 → (pickHelperFirst true n = .literal ↔ pickHelperFirst false n = .literal)) := by
+  refine ⟨by decide, by decide, ?_⟩
+  intro n hn
+  simp only [pickHelperFirst, Tahoe.Generated.Immutable.URI_LIT_SIZE_THRESHOLD]
+  by_cases h1 : 55 ≤ n
+  · have h2 : ¬ n ≤ 55 := by omega
+    simp [h1, h2]
+  · have h2 : n ≤ 55 := by omega
+    simp [h1, h2]
 
 /-- **`present_not_reuploaded`**: if no upload of the storage index is active, a UEB could be read and
 at least `total_shares` distinct share numbers were found, the helper answers with results and *no*
